@@ -397,6 +397,12 @@ pub fn field_variants(t: &mut Tape, plan: &XzPlan) -> Vec<(XzPlan, &'static str,
             }
         }
     }
+    // zero bytes after the footer whose count is not a multiple of four
+    for n in [1usize, 2, 3, 5, 6, 7] {
+        let mut p = plan.clone();
+        p.trailing = vec![0u8; n];
+        v.push((p, "stream_padding", format!("{} zero byte(s) after the footer", n)));
+    }
     // index padding non-zero (CRC recomputed)
     if let Some(f) = field("index.pad") {
         for i in 0..f.len {
@@ -527,7 +533,7 @@ impl Property for C06 {
         "fault_enumeration"
     }
     fn rule(&self) -> &'static str {
-        "per seeded valid .xz file (0-3 blocks, check None/CRC32/CRC64, optional fields, paddings): (a) one bit flipped — every bit position in the thorough tier, a sample in quick; (b) truncation at every (sampled) offset; (c) every integrity/size field (magics, stream flags incl. the reserved first byte on one side only, the 4 kinds of CRC32, backward size, index count and records (also two records wrong together with both column sums preserved; also every size/count integer spelt over-long in ten bytes whose first nine carry the true value), declared block sizes, size byte, the LZMA2 filter's size-of-properties (2-4), all paddings incl. the block header's (one byte non-zero; several at once: equal, cancelling under xor or sum, all 0xFF), check field) replaced by values from {0, 1, true±1, true+4, true+2^30·k, true+2^32, 2^31, 2^32-1, 2^63-1, random} with every enclosing CRC recomputed. One evaluation = one mutated file through xz_decompress (reader rotating over: slice, 1-byte refills, fixed k, irregular refills); Ok obliges (1) the field-exact judge to confirm every listed field against the delivered bytes and (2) for CRC32/CRC64 files delivered == original; all cases distinct by scenario hash and non-trivial"
+        "per seeded valid .xz file (0-3 blocks, check None/CRC32/CRC64, optional fields, paddings): (a) one bit flipped — every bit position in the thorough tier, a sample in quick; (b) truncation at every (sampled) offset; (c) every integrity/size field (magics, stream flags incl. the reserved first byte on one side only, the 4 kinds of CRC32, backward size, index count and records (also two records wrong together with both column sums preserved; also every size/count integer spelt over-long in ten bytes whose first nine carry the true value), declared block sizes, size byte, the LZMA2 filter's size-of-properties (2-4), all paddings incl. the block header's (one byte non-zero; several at once: equal, cancelling under xor or sum, all 0xFF; 1-3 or 5-7 zero bytes after the footer), check field) replaced by values from {0, 1, true±1, true+4, true+2^30·k, true+2^32, 2^31, 2^32-1, 2^63-1, random} with every enclosing CRC recomputed. One evaluation = one mutated file through xz_decompress (reader rotating over: slice, 1-byte refills, fixed k, irregular refills); Ok obliges (1) the field-exact judge to confirm every listed field against the delivered bytes and (2) for CRC32/CRC64 files delivered == original; all cases distinct by scenario hash and non-trivial"
     }
     fn runs(&self, tier: Tier) -> u64 {
         match tier {
@@ -626,7 +632,7 @@ impl Property for C06 {
                 "vli.nonminimal" => "probe.integer_not_in_shortest_form",
                 "index.count" | "index.unpadded" | "index.uncompressed" | "index.pad" | "index.crc32" => "probe.substituted_index_field",
                 "block.csize" | "block.usize" | "block.size_byte" => "probe.substituted_declared_block_size",
-                "block.pad" | "block.header_pad" | "block.filter_props_size" => "probe.substituted_padding",
+                "block.pad" | "block.header_pad" | "block.filter_props_size" | "stream_padding" => "probe.substituted_padding",
                 "block.check" => "probe.substituted_check_field",
                 "header.magic" | "footer.magic" => "probe.substituted_magic",
                 "footer.flags" | "header.flags" => "probe.header_footer_flags_disagree",
